@@ -304,6 +304,10 @@ use self::trs::*;
         r is Ok ==> self.or_lists_after(segment, provider, receiver, r->Ok_0.0.tours@, r->Ok_0.0.dummy_tours@,
             r->Ok_0.0.vehicle_ids_grouped_and_sorted@, r->Ok_0.0.dummy_ids_sorted@), // @obl C13.override_reassign.provider_loses_receiver_gains_displaced_go_to_new_dummy
         r is Ok ==> r->Ok_0.0.network == self.network, // @obl C13.override_reassign.provider_loses_receiver_gains_displaced_go_to_new_dummy
+        // C10: "vehicle and dummy listings are sorted and match the stored tours"; the ids stay valid (every dummy id is below
+        // the counter: the next id is fresh again)
+        r is Ok ==> listings_ok(r->Ok_0.0.vehicles@, r->Ok_0.0.dummy_tours@, r->Ok_0.0.vehicle_ids_grouped_and_sorted@, r->Ok_0.0.dummy_ids_sorted@), // @obl C10.override_reassign.listings_still_sorted_and_matching
+        r is Ok ==> ids_valid(r->Ok_0.0.vehicles@, r->Ok_0.0.tours@, r->Ok_0.0.dummy_tours@, r->Ok_0.0.dummy_ids_sorted@, r->Ok_0.0.vehicle_counter), // @obl C10.override_reassign.ids_stay_valid
         // (2) C10 / C03 / C13: formations
         r is Ok ==> self.or_formations_elsewhere(segment, provider, receiver, r->Ok_0.0.train_formations@), // @obl C13.override_reassign.formations_elsewhere_untouched
         r is Ok ==> self.or_formations_moved(segment, provider, receiver, r->Ok_0.0.train_formations@), // @obl C10.override_reassign.moved_nodes_provider_replaced_by_receiver
@@ -337,6 +341,7 @@ use self::trs::*;
         hide(Schedule::tours_after);
         hide(Schedule::dummies_after);
         hide(listings_ok);
+        hide(ids_valid);
         hide(usage_exact);
         hide(usage_exact_for);
         hide(usage_same_except_two);
@@ -368,6 +373,7 @@ use self::trs::*;
         let ghost tf1 = train_formations@;
         let ghost u1 = unserved_passengers;
         let ghost ids1 = dummy_ids_sorted@;
+        let ghost dm1 = dummy_tours@;
         proof {
             // the state between the two formation updates (triggers or_pre_displace)
             assert(self.or_between(segment, provider, receiver, tf1, u1));
@@ -383,6 +389,8 @@ use self::trs::*;
         proof {
             lemma_or_tours_post(self, segment, provider, receiver, stp, ntr, ndt, new_dummy_opt, vehicles@, tours@, dummy_tours@, vehicle_counter, costs);
             lemma_or_lists_post(self, segment, provider, receiver, stp, tours@, dummy_tours@, vehicle_ids_grouped_and_sorted@, ids1, dummy_ids_sorted@);
+            lemma_or_listings_post(self, segment, provider, receiver, stp, ntr, ndt, vehicles@, dm1, vehicle_ids_grouped_and_sorted@, ids1, dummy_tours@, dummy_ids_sorted@);
+            lemma_or_ids_post(self, segment, provider, receiver, stp, ntr, ndt, vehicles@, tours@, dummy_tours@, dummy_ids_sorted@, vehicle_counter);
             lemma_or_formations_post(self, segment, provider, receiver, tf1, u1, train_formations@);
             lemma_or_unserved_post(self, segment, provider, receiver, tf1, u1, unserved_passengers);
             lemma_usage_exact_after(self, self.depot_usage@, depot_usage@, self.vehicles@, self.tours@, Some(provider), stp, receiver, ntr); // @obl C09.override_reassign.depot_usage_exact
